@@ -737,7 +737,7 @@ func (p *wat2X64Worker) buildFunc_ins(
 
 	case token.INS_BR_TABLE:
 		i := i.(ast.Ins_BrTable)
-		assert(len(i.XList) > 1)
+		assert(len(i.XList) >= 1)
 
 		// 设置当前 block 为非正常的 end 结束
 		currentScopeContext := scopeStack.Top()
